@@ -2,7 +2,7 @@
 Tie between the body of `stretch.py: stretch` (regenerated on every run into `Generated/PyBodies.lean`) and the affine map
 `C20.stretchCore` / cap `C20.capHi` that `C20.stretchList` (the driver's model) applies to every element.
 -/
-import Mahotas.Generated.PyBodies
+import Mahotas.Generated.PyBodiesC20
 import Mahotas.Model.C20
 import Mathlib.Algebra.Order.Field.Basic
 import Mathlib.Tactic.Linarith
